@@ -338,6 +338,12 @@ MUTANTS += [
     ("c16-inplace-mul-operand", ["C16"], [(AR, "        outputs = scale * inputs + shift\n        logabsdet = torchutils.sum_except_batch(log_scale, num_batch_dims=1)", "        outputs = scale * inputs + shift\n        scale -= self._epsilon\n        logabsdet = torchutils.sum_except_batch(log_scale, num_batch_dims=1)")], "GRAD-INPLACE"),
 ]
 
+MUTANTS += [
+    ("c07-affine-flip", ["C07"], [(CPL, "        outputs = inputs * scale + shift\n        logabsdet = torchutils.sum_except_batch(log_scale, num_batch_dims=1)", "        outputs = inputs.flip(1) * scale + shift\n        logabsdet = torchutils.sum_except_batch(log_scale, num_batch_dims=1)")], "CPL-ELEM"),
+    ("c07-maf-cumsum", ["C07"], [(AR, "        outputs = scale * inputs + shift\n        logabsdet = torchutils.sum_except_batch(log_scale, num_batch_dims=1)", "        outputs = scale * torch.cumsum(inputs, dim=1) + shift\n        logabsdet = torchutils.sum_except_batch(log_scale, num_batch_dims=1)")], "CPL-ELEM"),
+    ("c01-tanh-centered", ["C01"], [(NL, "        outputs = torch.tanh(inputs)\n        logabsdet = torch.log(1 - outputs ** 2)", "        outputs = torch.tanh(inputs - inputs.mean(-1, keepdim=True))\n        logabsdet = torch.log(1 - outputs ** 2)")], "LD-ELEM"),
+]
+
 BENIGN = [
     ("b-c06-rename-local", ["C06"], [(MADE1, "        prev_out_degrees = self.initial_layer.degrees\n        for _ in range(num_blocks):", "        prev_out_degrees = self.initial_layer.degrees\n        for _blk in range(num_blocks):")]),
     ("b-c06-guard-form", ["C06"], [(MADE1, "if torch.all(self.degrees >= in_degrees).item() != 1:", "if not torch.all(in_degrees <= self.degrees):")]),
